@@ -421,6 +421,9 @@ func (sh *SessionHandler) rpcRenewAndClearContract(s *session, log *zap.Logger) 
 		s.t.WriteResponseErr(err)
 		return contracts.Usage{}, fmt.Errorf("failed to renew contract: %w", err)
 	}
+	// the session's contract is now the cleared one: it is at its final
+	// revision and must not be revised or renewed again
+	s.contract = signedClearing
 
 	// send the host signatures to the renter
 	hostSigsResp := &rhp2.RPCRenewAndClearContractSignatures{
